@@ -35,6 +35,26 @@ REGISTRY = {
         engine="E3 typestate/flow + E5 schema",
         ref="DESIGN.md §4 C19",
     ),
+    "C20": dict(
+        text="Schema-directed wiring analysis of the builders in sleap_nn/train.py against the attrs config schema read "
+        "from the AST: train() forwards each of its 55 parameters by name to exactly one builder; the construction tree "
+        "each builder returns is extracted and compared with the documented parameter->config-path table (no argument "
+        "dropped, modified, cross-wired or passed to an undeclared field; nested objects have the declared type; the "
+        "validation loader never shuffles; augmentation built iff use_augmentations_train); the per-name branches of "
+        "get_aug_config commute pairwise and leave their own fields enabled given the loop-entry values; presets and "
+        "dict keys select the attribute/class of the same name; every *_p field has validate_proportion whose raise "
+        "condition is exactly the complement of [0,1]; the scale/model_type/optimizer/devices/min_lr/pre_trained "
+        "validators raise; HeadConfig/BackboneConfig are wrapped by a oneof whose __init__ wrapper raises when more "
+        "than one attribute is set. These are statements over all argument combinations because they are facts about "
+        "the wiring, not about sampled calls.",
+        note="Trusted: ast; attrs runs validators in __init__; the parameter->field table frozen in sa/props/c20.py as "
+        "the documented interface. Not decided: YAML save/load round trip and idempotence of verify_training_cfg "
+        "(OmegaConf runtime semantics), defaults of options the builders do not expose beyond their being left to "
+        "the schema.",
+        technique="schema-directed wiring / construction-tree comparison + branch-commutativity + validator structure",
+        engine="E5 schema",
+        ref="DESIGN.md §4 C20",
+    ),
 }
 
 ALL = ["C%02d" % i for i in range(1, 21)]
